@@ -27,6 +27,9 @@ EXPLANATION = (
     "jackknife_ratios removes sample i from both means and divides both by n - 1. "
     "reject_outliers tests the absolute (two-sided) deviation; in the driver every array paired with "
     "filtered weights carries the mask of the same reject_outliers call. "
+    "PAIR-4: the median absolute deviation in reject_outliers is a median over every row (not over a "
+    "selection of the deviations). The block sums of blocking_analysis are recognised in the per-block "
+    "loop form and in the X[:nBlocks*i].reshape(nBlocks, i).sum(axis=1) form. "
 )
 NOT_DECIDED = "statistical validity of the error bar, plateau detection, behaviour on autocorrelated series."
 TECHNIQUE = "static analysis: degree-of-homogeneity / shift typing over the AST, def-use pairing rules"
